@@ -471,13 +471,17 @@ func globalsCountOf(m *Module) uint32 { return m.ImportGlobalCount + uint32(len(
 //@ func (m *Module) validateTable(enabledFeatures api.CoreFeatures, tables []Table, maximumTableIndex uint32) error
 //@   ensures[table-count-limited] r0 == nil ==> len(tables) <= int(maximumTableIndex)
 //@   ensures[segment-targets-exist] r0 == nil ==> forall i int :: 0 <= i && i < len(m.ElementSection) ==> elemTargetOK(&m.ElementSection[i], tables)
+//@   ensures[first-entry-of-every-segment-in-range] r0 == nil ==> forall i int :: 0 <= i && i < len(m.ElementSection) && len(m.ElementSection[i].Init) > 0 ==> elemEntryOK(m.ElementSection[i].Init[0], m.ElementSection[i].Type, funcCountOf(m), globalsCountOf(m))
 //@   ensures[segment-entries-in-range@thorough] r0 == nil ==> forall i int, e int :: 0 <= i && i < len(m.ElementSection) && 0 <= e && e < len(m.ElementSection[i].Init) ==> elemEntryOK(m.ElementSection[i].Init[e], m.ElementSection[i].Type, funcCountOf(m), globalsCountOf(m))
 //@   modifies nothing
 //@   loop 0 (rangeindex int)
 //@     invariant forall i int :: 0 <= i && i <= rangeindex && i < len(m.ElementSection) ==> elemTargetOK(&m.ElementSection[i], tables)
+//@     invariant[first-entry] forall i int :: 0 <= i && i <= rangeindex && i < len(m.ElementSection) && len(m.ElementSection[i].Init) > 0 ==> elemEntryOK(m.ElementSection[i].Init[0], m.ElementSection[i].Type, funcCountOf(m), globalsCountOf(m))
 //@     invariant[entries@thorough] forall i int, e int :: 0 <= i && i <= rangeindex && i < len(m.ElementSection) && 0 <= e && e < len(m.ElementSection[i].Init) ==> elemEntryOK(m.ElementSection[i].Init[e], m.ElementSection[i].Type, funcCountOf(m), globalsCountOf(m))
 // (inner loop: every entry seen so far is in range - checked as the loop's own invariant; exporting it
-// through the outer loop as a forall-forall postcondition takes minutes of solver time: thorough tier only)
+// through the outer loop as a forall-forall postcondition takes minutes of solver time: thorough tier only;
+// the quick tier exports it for the first entry of every segment, of whatever mode, which is enough to
+// notice a class of segments that skips the entry checks)
 //@   loop 1 (elem *ElementSegment, funcCount uint32, globalsCount uint32, rangeindex int)
 //@     invariant funcCount == funcCountOf(m) && globalsCount == globalsCountOf(m) && elem != nil
 //@     invariant forall e int :: 0 <= e && e <= rangeindex && e < len(elem.Init) ==> elemEntryOK(elem.Init[e], elem.Type, funcCount, globalsCount)
